@@ -28,7 +28,7 @@ SHARDS = {"quick": 1, "thorough": 1}
 RULE = (
     "Complete enumeration of the finite space (dtype x category x backend): every concrete numpy scalar type "
     "(np.sctypeDict incl. longlong/ulonglong/intc/longdouble/clongdouble, str_, bytes_, void, object_, datetime64, "
-    "timedelta64), all 16 ml_dtypes types, key dtypes of the 3 PRNG impls, 11 structured dtypes (two of equal width, one aligned, one with upper-case codes, nested-field and sub-array-field look-alikes of equal size) and raw V2; 34 exported classes "
+    "timedelta64), 10 dtypes with an explicit (non-native / native) byte order, all 16 ml_dtypes types, key dtypes of the 3 PRNG impls, 11 structured dtypes (two of equal width, one aligned, one with upper-case codes, nested-field and sub-array-field look-alikes of equal size) and raw V2; 34 exported classes "
     "+ 24 user categories (strings, regexes, mixed, case-sensitive names, one per structured dtype); backends numpy, jax.Array, jax tracer (eval_shape and jit), "
     "key arrays, duck(str dtype), duck(torch-style repr 'torch.<name>' and mlx-style repr 'mlx.core.<name>'), duck(numpy dtype), TensorFlow tensors. A backend is "
     "crossed with a dtype when it can actually produce an array of it (measured). Every triple is non-trivial; distinct by "
@@ -80,6 +80,9 @@ def numpy_universe():
     for name, d in STRUCTS.items():
         out.append((name, d))
     out.append(("rawV2", np.dtype("V2")))
+    # explicit byte orders (data read from files / sockets): the same dtypes as far as categories are concerned
+    for code in (">f4", "<f4", ">f8", ">i4", ">u2", ">i8", ">c8", ">f2", "=i2", "|b1"):
+        out.append((f"byteorder {code}", np.dtype(code)))
     return out
 
 
